@@ -453,7 +453,7 @@ def run_check(module_name, tier, seed, workers=None, only_parts=None,
     known = load_known_findings(prop)
     quick = tier == "quick"
     budget = float(os.environ.get(
-        "VERIF_BUDGET_S", getattr(module, "QUICK_BUDGET_S", 90) if quick
+        "VERIF_BUDGET_S", getattr(module, "QUICK_BUDGET_S", 300) if quick
         else getattr(module, "THOROUGH_BUDGET_S", 1500)))
 
     total = ShardResult()
